@@ -146,7 +146,7 @@ def blocked_cases(draw):
         "what": "blocked",
         "spec": spec,
         "labels": labels,
-        "path": draw(st.sampled_from(build.BUILD_PATHS)),
+        "path": draw(st.sampled_from(build.BUILD_PATHS_LP)),
         "list_mode": draw(st.sampled_from(["none", "none", "objs", "objs", "ids", "mixed"])),
         "sel": draw(st.lists(st.integers(0, n - 1), min_size=1, max_size=n, unique=True)),
         "open_exchanges": draw(st.booleans()),
@@ -160,7 +160,7 @@ def blocked_cases(draw):
 @st.composite
 def fastcc_cases(draw):
     spec, labels = draw(network(gprs=True))
-    return {"what": "fastcc", "spec": spec, "labels": labels, "path": draw(st.sampled_from(build.BUILD_PATHS))}
+    return {"what": "fastcc", "spec": spec, "labels": labels, "path": draw(st.sampled_from(build.BUILD_PATHS_LP))}
 
 
 # ------------------------------------------------------------------------------------------
